@@ -60,6 +60,7 @@ func runC05(c *Collector, r *Rng, thorough bool) {
 		c05Oracle(c, cs.kind, b, &d)
 	}
 	c05GovernedGrid(c)
+	c05IVPairs(c)
 	for _, kind := range kinds {
 		for i := 0; i < n; i++ {
 			cfg := defaultCfg
@@ -191,7 +192,8 @@ func c05GovernedGrid(c *Collector) {
 			wBstr(nil, -1), wBstr([]byte{1}, -1), wBstr([]byte{1, 4}, -1), wTstr("", -1), wTstr("a", -1), wTstr("a/b", -1),
 			wArr(-1), wArr(-1, wInt(1, -1)), wArr(-1, wInt(4, -1)), wArr(-1, wNull()), wArr(-1, wBstr([]byte{1}, -1)), wArr(-1, wInt(1, -1), wInt(4, -1)),
 			wMap(-1), wMap(-1, wInt(1, -1), wInt(4, -1)), wFloat16bits(0x3c00), wFloat64(1.5),
-			wArr(-1, wBstr(nil, -1), wMap(-1), wBstr([]byte{1}, -1))}
+			wArr(-1, wBstr(nil, -1), wMap(-1), wBstr([]byte{1}, -1)),
+			wSimple(0), wSimple(16), wSimple(19), wSimple(32), wSimple(255)}
 	}
 	for _, label := range []int64{1, 2, 3, 4, 5, 6, 7, 9, 11, 12, 16} {
 		for si := range shapes() {
@@ -229,6 +231,60 @@ func c05GovernedGrid(c *Collector) {
 				run("DSignMsg", wTag(98, -1, wArr(-1, wBstr(nil, -1), wMap(-1), wBstr([]byte("p"), -1), wArr(-1, wArr(-1, pb, ub, wBstr([]byte{1}, -1))))))
 				pb, ub = mkBuckets()
 				run("DSign1", wTag(18, -1, wArr(-1, wBstr(nil, -1), wMap(-1, wInt(7, -1), wArr(-1, pb, ub, wBstr([]byte{1}, -1))), wBstr([]byte("p"), -1), wBstr([]byte{1}, -1))))
+			}
+		}
+	}
+}
+
+// c05IVPairs: IV (5) and Partial IV (6) together - in one bucket or one in each - with every combination of empty and
+// non-empty byte strings, in the four layers: the two never coexist in a layer, however short either of them is.
+func c05IVPairs(c *Collector) {
+	vals := [][]byte{{}, {1}, {1, 2, 3, 4, 5, 6, 7, 8}}
+	for _, iv := range vals {
+		for _, piv := range vals {
+			for _, place := range []string{"both-protected", "both-unprotected", "iv-protected", "iv-unprotected"} {
+				mk := func() (*W, *W) {
+					pkv := []*W{wInt(1, -1), wInt(-7, -1)}
+					ukv := []*W{}
+					ivp, pivp := wBstr(iv, -1), wBstr(piv, -1)
+					switch place {
+					case "both-protected":
+						pkv = append(pkv, wInt(5, -1), ivp, wInt(6, -1), pivp)
+					case "both-unprotected":
+						ukv = append(ukv, wInt(5, -1), ivp, wInt(6, -1), pivp)
+					case "iv-protected":
+						pkv = append(pkv, wInt(5, -1), ivp)
+						ukv = append(ukv, wInt(6, -1), pivp)
+					default:
+						ukv = append(ukv, wInt(5, -1), ivp)
+						pkv = append(pkv, wInt(6, -1), pivp)
+					}
+					return wBstr(wMap(-1, pkv...).Ser(), -1), wMap(-1, ukv...)
+				}
+				run := func(kind string, w *W) {
+					b := w.Ser()
+					d := decodeCase(c, "iv-pairs/"+place, kind, b)
+					c05Oracle(c, kind, b, &d)
+				}
+				pb, ub := mk()
+				if place == "both-protected" {
+					run("DProt", pb)
+				}
+				if place == "both-unprotected" {
+					run("DUnprot", ub)
+				}
+				pb, ub = mk()
+				run("DSign1", wTag(18, -1, wArr(-1, pb, ub, wBstr([]byte("p"), -1), wBstr([]byte{1}, -1))))
+				pb, ub = mk()
+				run("DSign1U", wArr(-1, pb, ub, wBstr([]byte("p"), -1), wBstr([]byte{1}, -1)))
+				pb, ub = mk()
+				run("DSignature", wArr(-1, pb, ub, wBstr([]byte{1}, -1)))
+				pb, ub = mk()
+				run("DSignMsg", wTag(98, -1, wArr(-1, pb, ub, wBstr([]byte("p"), -1), wArr(-1, wArr(-1, wBstr(nil, -1), wMap(-1), wBstr([]byte{1}, -1))))))
+				pb, ub = mk()
+				run("DSignMsg", wTag(98, -1, wArr(-1, wBstr(nil, -1), wMap(-1), wBstr([]byte("p"), -1), wArr(-1, wArr(-1, pb, ub, wBstr([]byte{1}, -1))))))
+				pb, ub = mk()
+				run("DSign1", wTag(18, -1, wArr(-1, wBstr(nil, -1), wMap(-1, wInt(11, -1), wArr(-1, pb, ub, wBstr([]byte{1}, -1))), wBstr([]byte("p"), -1), wBstr([]byte{1}, -1))))
 			}
 		}
 	}
